@@ -1,0 +1,21 @@
+//go:build verif
+
+// Contracts for the govc verifier (/verif). Comment-only; compiled only with -tags verif.
+// blocksOK / blocksOKs are defined in /verif/specs/textdoc.ghost.
+
+package simple
+
+//@ func (*BoilerplateBlock).Process(doc)
+//@   requires f != nil && blocksOK(doc)
+//@   ensures blocksOK(doc)
+//@   loop 0 invariant 0 <= i && i <= len(textBlocks) && doc != nil && inheap(textBlocks) && samerow(textBlocks, old(doc.TextBlocks))
+//@   loop 0 invariant forall(k, 0 <= k && k < len(textBlocks), textBlocks[k] != nil)
+//@   loop 0 invariant forall(k, 0 <= k && k < len(textBlocks), inheap(textBlocks[k].TextElements))
+//@   loop 0 invariant forall(k, 0 <= k && k < len(textBlocks), disjoint(textBlocks, textBlocks[k].TextElements))
+//@   loop 0 decreases len(textBlocks) - i
+
+//@ func (*LabelToBoilerplate).Process(doc)
+//@   requires f != nil && blocksOK(doc)
+//@   ensures blocksOK(doc)
+//@   loop 0 invariant blocksOK(doc) && doc.TextBlocks == old(doc.TextBlocks) && f != nil
+//@   loop 1 invariant blocksOK(doc) && doc.TextBlocks == old(doc.TextBlocks) && f != nil && tb != nil
